@@ -116,10 +116,11 @@ Vals(t, c) ==
     [] t = "Tuple" -> {Tup(<<I(1), S("a1")>>), Tup(<<F(3), None>>), Tup(<<Lst(<<I(1)>>), Bo(TRUE)>>)}
     [] t \in {"NumericTuple", "XYCoordinates"} -> {Tup(<<I(1), F(3)>>), Tup(<<F(0), I(-1)>>)}
     [] t = "Range" -> {Tup(<<a, b>>) : a \in {v \in {I(0), F(1), I(2)} : InB(v, c)}, b \in {v \in {I(2), F(5), I(4)} : InB(v, c)}}
-    [] t = "Date" -> {DT(2, 0), DT(3, 1)}
-    [] t = "CalendarDate" -> {D(2), D(3)}
-    [] t = "DateRange" -> {Tup(<<D(2), D(3)>>), Tup(<<DT(2, 0), DT(3, 1)>>), Tup(<<DT(2, 1), DT(2, 1)>>)}
-    [] t = "CalendarDateRange" -> {Tup(<<D(2), D(3)>>), Tup(<<D(2), D(2)>>)}
+    \* (days 2, 3: January 2020; days 22, 23: 2 and 3 January of the year 33 -- a year below 1000)
+    [] t = "Date" -> {DT(2, 0), DT(3, 1), DT(22, 1)}
+    [] t = "CalendarDate" -> {D(2), D(3), D(22)}
+    [] t = "DateRange" -> {Tup(<<D(2), D(3)>>), Tup(<<DT(2, 0), DT(3, 1)>>), Tup(<<DT(2, 1), DT(2, 1)>>), Tup(<<DT(22, 0), DT(3, 1)>>)}
+    [] t = "CalendarDateRange" -> {Tup(<<D(2), D(3)>>), Tup(<<D(2), D(2)>>), Tup(<<D(22), D(23)>>)}
     [] t = "List" -> (CASE c.it = "none" -> {Lst(<<>>), Lst(<<I(1), S("a1"), None>>), Lst(<<Lst(<<I(1)>>), Dct(<<"z">>, <<F(3)>>)>>)}
                         [] c.it = "int" -> {Lst(<<>>), Lst(<<I(1), I(2)>>)}
                         [] c.it = "str" -> {Lst(<<S("a1")>>), Lst(<<>>)}
@@ -192,7 +193,10 @@ OutOfBoundsRejected ==
 \* serialization of a whole object {x, other} under subset=: exactly the named parameters, the empty subset included
 ParamNames == {"x", "values"}      \* ("values": a parameter named like an attribute of the .param namespace)
 SubsetKeys == [sub \in SUBSET ParamNames |-> sub]
-Table == [t |-> t, c |-> c,
+\* a class that also declares a read-only and a constant parameter must be rebuilt from its own serialization
+\* as well (checked once, with the Boolean table; known finding: the read-only value is emitted and then refused)
+WithReadonly == t = "Boolean" /\ ~c.an
+Table == [t |-> t, c |-> c, readonly |-> WithReadonly, kf |-> IF WithReadonly THEN {"KF_ReadonlySerialized"} ELSE {},
           subsets |-> {[sub |-> sub, keys |-> SubsetKeys[sub]] : sub \in SUBSET ParamNames},
           cases |-> {[v |-> v, ser |-> Ser(t, v)] : v \in Vals(t, c)},
           schema |-> IF t \in SchemaTypes THEN Schema(t, c) ELSE Sch("none"),
